@@ -15,6 +15,9 @@ import (
 func RefString(r *IntrospectionTypeRef) string { panic("ghost") }
 func WfRef(r *IntrospectionTypeRef) bool       { panic("ghost") }
 
+// IsIntrospection: the selection set asks for __schema / __type (what ResolveIntrospectionFields answers by itself).
+func IsIntrospection(sel ast.SelectionSet) bool { panic("ghost") }
+
 // TString: what (*ast.Type).String returns.
 func TString(t *ast.Type) string { panic("ghost") }
 
@@ -75,7 +78,17 @@ func TString(t *ast.Type) string { panic("ghost") }
 //@ end
 
 //@ func (*IntrospectionResolver).ResolveIntrospectionFields
-//@ props C07 C10
+//@ props C07 C10 C06
+// C06/C13: the operation is answered by the gateway itself only because of a __type or __schema field: the flag that
+// decides it turns true at such a field and nowhere else (a mutation that merely selects __typename is executed)
+//@ loop 0 step[only-introspection-fields] !athead(isIntrospection) && isIntrospection ==> f.Name == "__type" || f.Name == "__schema" @props C06 C13
+//@ loop 0 entry[starts-false] !isIntrospection @props C06 C13
+// (the operation was validated: the required argument of __type(name: String!) is provided - gqlparser's rule
+// ProvidedRequiredArguments)
+//@ assumes[validated] forallT(p, *ast.Field, p != nil && p.Name == "__type" ==> exists(i, 0, len(p.Arguments), p.Arguments[i].Name == "name"))
+// (definition of the ghost IsIntrospection used by the gateway's contracts: assumed, not proved)
+//@ assumes-post[is-introspection] (result != nil) == IsIntrospection(selectionSet)
+//@ modifies-assumed fresh
 // the schema is shared by every request (validation, planning, introspection): a resolver only writes into what it builds
 //@ stores fresh, elems(map[string]interface{})
 //@ requires ir != nil && schema != nil
